@@ -1,10 +1,11 @@
 (* C06 velocities and accelerations.  Proved: the velocity pass leaves in v[i] the recursion
    v_i = X_i v_parent + S_i qd_i (v of a base-attached body = its joint velocity) for every tree, joint kind and
    incoming workspace; the full update and the selective update leave identical body velocities; the 6-D point
-   velocity is a function of model, state and point only.  That these are the time derivatives of the pose is
+   velocity is a function of model, state and point only; the full update leaves the velocity-product terms
+   c_i = c_J,i + v_i x v_J,i and the accelerations a_i = X_i a_parent + c_i + S_i qdd_i (a_0 = 0).  That these are the time derivatives of the pose is
    decided by the L3 oracle (2-jets of the pose composed from the construction calls). *)
 From Coq Require Import List NArith.
-From RV Require Import Scalar LinAlg3 Spatial Quat Laws ListArr ModelDef JointDef KinDef C14Thm WsLemmas KinThm KinThm2.
+From RV Require Import Scalar LinAlg3 Spatial Quat Laws ListArr ModelDef JointDef KinDef C14Thm WsLemmas KinThm KinThm2 DynThm KinThm3.
 Section P.
   Context {T : Type} (O : Ops T) {FL : FieldLaws O}.
   Theorem C06_velocity_pass_recursion (M : @Model T) (w : @WS T) q qd : WF M -> Good O M w ->
@@ -27,7 +28,20 @@ Section P.
     Good O M w1 -> Good O M w2 -> (id < fixed_disc)%N -> 0 < N.to_nat id < nbodies M ->
     snd (calc_point_velocity6 O M w1 q qd id pt true) = snd (calc_point_velocity6 O M w2 q qd id pt true).
   Proof. exact (point_velocity_ws_independent O M w1 w2 q qd id pt). Qed.
+  Theorem C06_full_update_accelerations (M : @Model T) (w : @WS T) q qd qdd : WF M ->
+    (forall i j, 0 < i < nbodies M -> 0 < j < nbodies M -> i <> j ->
+       is_custom (jkind (getJ M i)) = true -> is_custom (jkind (getJ M j)) = true -> jcust (getJ M i) <> jcust (getJ M j)) ->
+    Good O M w ->
+    let w' := update_kinematics O M w q qd qdd in
+    forall i, 0 < i < nbodies M ->
+      gv O w' i = vF O M q qd i /\ gc O w' i = cU O M q qd i /\ ga O w' i = aU O M q qd qdd i.
+  Proof. intros W C. exact (uk_a_spec O M q qd qdd W C w). Qed.
+  Theorem C06_acceleration_recursion_unfolded (M : @Model T) q qd qdd i : WF M -> 0 < i < nbodies M ->
+    aU O M q qd qdd i = svadd O (svadd O (st_apply O (XlF O M q i) (aU O M q qd qdd (getlam M i))) (cU O M q qd i))
+                                (cols_mulv O (SF O M q i) (qdd_seg O M i qdd)).
+  Proof. intros W. exact (aU_unfold O M q qd qdd W i). Qed.
 End P.
 Print Assumptions C06_velocity_pass_recursion. Print Assumptions C06_velocity_recursion_unfolded.
 Print Assumptions C06_full_update_velocities. Print Assumptions C06_full_and_selective_update_agree.
 Print Assumptions C06_point_velocity_function_of_state.
+Print Assumptions C06_full_update_accelerations. Print Assumptions C06_acceleration_recursion_unfolded.
